@@ -17,14 +17,14 @@ const (
 // component index conventions of the relation scenarios
 func relFilters(a, r int) []FSpec {
 	return []FSpec{
-		FAll("All(R)", r),                               // 0
-		FAll("All(R,A)", r, a),                          // 1
+		FAll("All(R)", r),      // 0
+		FAll("All(R,A)", r, a), // 1
 		FWithout("All(R).Without(A)", []int{r}, []int{a}), // 2
-		FExclusive("All(R).Exclusive()", r),             // 3
-		FRelOf(FAll("All(R)", r)),                       // 4
-		FAll("All()"),                                   // 5
-		FAll("All(A)", a),                               // 6
-		FRelOf(FAll("All(R,A)", r, a)),                  // 7
+		FExclusive("All(R).Exclusive()", r),               // 3
+		FRelOf(FAll("All(R)", r)),                         // 4
+		FAll("All()"),                                     // 5
+		FAll("All(A)", a),                                 // 6
+		FRelOf(FAll("All(R,A)", r, a)),                    // 7
 	}
 }
 
@@ -69,13 +69,13 @@ func CoreCfg(id string, k, capInc int, fillers []int, feat uint32, oracles uint3
 	c.Fillers = fillers
 	c.Sets = [][]int{{}, {0}, {0, 1}, {1, 2}, {3}}
 	c.Filters = []FSpec{
-		FAll("All()"),                                   // 0
-		FAll("All(A)", 0),                               // 1
-		FAll("All(B)", 1),                               // 2
+		FAll("All()"),     // 0
+		FAll("All(A)", 0), // 1
+		FAll("All(B)", 1), // 2
 		FWithout("All(A).Without(B)", []int{0}, []int{1}), // 3
-		FExclusive("All(A).Exclusive()", 0),             // 4
-		FAll("All(Z)", 2),                               // 5
-		FAll("All(C)", 3),                               // 6
+		FExclusive("All(A).Exclusive()", 0),               // 4
+		FAll("All(Z)", 2),                                 // 5
+		FAll("All(C)", 3),                                 // 6
 	}
 	c.BatchRefs = []int{0, 1, 3}
 	c.RegSpecs = []int{1, 3}
